@@ -38,6 +38,12 @@ for _st in STAGES:
     DIRECTED.append(dict(cfg=('osc_maths', 3), kind='fit', stage=_st, P_obs=1, P_first=1, ipe=True, ops=['pipe_other_basis', 'pipe_same']))
     DIRECTED.append(dict(cfg=('core_maths', 3), kind='fit', stage=_st, P_obs=2, P_first=2, ipe=True, ops=['pipe_other_basis', 'gen_other']))
 for _st in STAGES:
+    # an earlier run used ignore_previous_eqns (and left previous_eqns_<n>.txt in the library), the observed default run does not
+    DIRECTED.append(dict(cfg=('core_maths', 3), kind='fit', stage=_st, P_obs=1, P_first=1, ipe=False, ipe_seq=[True, False, False], ops=['pipe_same']))
+    DIRECTED.append(dict(cfg=('core_maths', 3), kind='fit', stage=_st, P_obs=1, P_first=2, ipe=False, ipe_seq=[True, False, False], ops=['pipe_other_like', 'restart:1']))
+    # ... and the other way round
+    DIRECTED.append(dict(cfg=('core_maths', 3), kind='fit', stage=_st, P_obs=2, P_first=2, ipe=False, ipe_seq=[False, True, True], ops=['pipe_same']))
+for _st in STAGES:
     DIRECTED.append(dict(cfg=('core_maths', 3), kind='fit', stage=_st, P_obs=1, P_first=1, ipe=False, ipe_mode='mixed', ops=['pipe_same', 'pipe_same', 'restart:1']))
     DIRECTED.append(dict(cfg=('core_maths', 4), kind='fit', stage=_st, P_obs=1, P_first=1, ipe=False, mock=True, rebuild=True, ops=['gen_same_basis', 'pipe_same', 'pipe_same']))
     DIRECTED.append(dict(cfg=('core_maths', 3), kind='fit', stage=_st, P_obs=2, P_first=2, ipe=False, mock=True, rebuild=True, ops=['pipe_same', 'pipe_other_basis']))
@@ -136,9 +142,13 @@ def draw_history(seed, i, quick, recipe=None):
             likes_here.add(name)
     ipe_mode = recipe.get('ipe_mode') or ('all' if ipe else rng.choice(['none', 'none', 'mixed']))
 
+    ipe_seq = list(recipe.get('ipe_seq') or [])
+
     def op_opts():
         # ignore_previous_eqns is drawn per operation in 'mixed' mode: an earlier run may have used it, the observed one not
         on = ipe if ipe_mode == 'all' else (ipe_mode == 'mixed' and rng.random() < 0.5)
+        if recipe.get('ipe_seq') is not None:
+            on = ipe_seq.pop(0) if ipe_seq else False
         return dict(FIT_OPTS, ignore_previous_eqns=True) if on else dict(FIT_OPTS)
     nops = rng.randint(0, 5)
     CODES = {'gen_other': 0.1, 'gen_same_basis': 0.3, 'gen_identical': 0.5, 'pipe_same': 0.6, 'pipe_other_like': 0.7, 'pipe_other_basis': 0.8,
